@@ -309,7 +309,8 @@ func (engine *Engine) Shutdown(ctx context.Context) (err error) {
 		return errStatusNotRunning
 	}
 	if !atomic.CompareAndSwapUint32(&engine.status, statusRunning, statusShutdown) {
-		return
+		// another Shutdown call won the race between the check above and here
+		return errStatusNotRunning
 	}
 
 	opt := engine.GetOptions()
